@@ -541,8 +541,19 @@ pub fn run(ctx: &Ctx) -> Report {
             Err(e) => rep.violations.push(viol("C04", "C04 bad-framing".into(), e, d())),
             Ok((pkts, msgs)) => {
                 rep.counters.add("packets_checked", pkts.len() as u64);
-                // whether the messages form the right responses is C03's clause; C04 judges framing
                 rep.counters.add("messages_reassembled", msgs.len() as u64);
+                // every packet carries one message (or one fragment of one): two messages under one
+                // header, or one message cut in two, still "frame" - the lengths add up - but what the
+                // client reassembles are then not the messages of the protocol. (Which responses they
+                // form is C03's clause; that each is a message at all is framing.)
+                if obs.outcome == Outcome::Ok {
+                    let dec = wire::decode_all(&obs.kinds, &msgs);
+                    if let Some(wire::Stop::Bad(k, e)) = &dec.stop {
+                        rep.violations.push(viol("C04", "C04 reassembled-messages-are-not-protocol-messages".into(), format!("the packets frame, but the messages they reassemble to stop making sense at exchange #{}: {}", k, e), d()));
+                    } else {
+                        rep.counters.inc("conversations_whose_reassembled_messages_all_decode");
+                    }
+                }
             }
         }
     });
